@@ -44,9 +44,13 @@ TRANSLATION TABLE (Python → Lean)
                                         state tuple; no return/raise/break inside loops; the loop variable and the
                                         body's locals are not visible after the loop
   return e                              e                (`.ok e` if the function can raise)
-  raise X(...)                          .error Py.Err.<X>   result type `Except Py.Err τ`
+  raise X(...)                          .error Py.Err.<X>   result type `Except Py.Err τ`; with effects / state the result
+                                        is (value-or-error, effects, state…): what was done before a raise stays done
   registry effect `obj.meth(a, b)`      let effects_ := effects_ ++ [(a, b)]; `effects_` starts as [] and is returned (after the value)
-  registry state attr `self._x`         a local initialised from `self._x`, returned after the value / effects
+  registry state attr `self._x`         a local initialised from `self._x`, returned after the value / effects;
+                                        a dict-typed one is an association list, newest binding first:
+  self._x.get(k, None) / self._x[k] = v (List.lookup k x) : Option / let x := (k, v) :: x
+  if v is not None: A (returns) ; rest  match v with | some v => A | none => rest      (v an Option; also `is None`)
   docstrings, `pass`, type annotations  dropped
 NOT in the subset: floats, strings (except in `raise`), dict values, sets, slices, list indexing, nested defs, lambda,
 try/with, while (see registry `fuel`), break, return inside for, *args/**kwargs, walrus, global state, division by 0.
@@ -92,6 +96,7 @@ class Fn:
     self_rec: str | None = None    # record name for `self`
     effects: dict = field(default_factory=dict)   # "cell.connect" -> element type of the emitted list (a ("T", ..))
     keyed: tuple = ()              # dotted names of dicts whose values are named by their key: `self._cells[k]` → k
+    state: dict = field(default_factory=dict)     # "self._cache" -> type: attributes the function mutates
     defaults_ok: bool = True       # parameters' default values are ignored (callers pass everything)
 
 
@@ -108,6 +113,8 @@ def lean_ty(t):
         return t[1]
     if t[0] == "E":
         return f"(Except Py.Err {lean_ty(t[1])})"
+    if t[0] == "D":
+        return f"(List ({lean_ty(t[1])} × {lean_ty(t[2])}))"
     raise ValueError(t)
 
 
@@ -155,6 +162,8 @@ class Translator:
         self.outs = []          # implicit outputs: effect list `out`
         self.can_raise = False
         self.ret_ty = None
+        self.tokens = {}        # placeholders of pending type annotations
+        self.returns_value = False
         self.loops = []         # per enclosing `for`: env -> lines of the loop state (what `continue` evaluates to)
 
     # ------------------------------------------------------------------ helpers
@@ -163,6 +172,7 @@ class Translator:
 
     @staticmethod
     def v(name):
+        name = name.replace(".", "__")
         return name + "_" if name in LEAN_KEYWORDS else name
 
     def tup(self, names):
@@ -298,7 +308,7 @@ class Translator:
     def e_Attribute(self, e, env):
         d = _dotted(e)
         if d in env:                                  # state attribute held in a local
-            return self.v(d.replace(".", "__")), env[d]
+            return self.v(d), env[d]
         t, ty = self.expr(e.value, env)
         if ty and ty[0] == "R" and e.attr in self.recs[ty[1]].fields:
             return f"{t}.{e.attr}", self.recs[ty[1]].fields[e.attr]
@@ -371,7 +381,7 @@ class Translator:
                 return f"(Py.productRepeat {xs} {n}.toNat)", ("L", tx)
         if kw:
             self.bad(e, "keyword arguments")
-        vals = [self.expr(a, env) for a in args]
+        vals = [self.expr(a, env) if not (isinstance(a, ast.Constant) and a.value is None) else ("none", None) for a in args]
         tys = [v[1] for v in vals]
         if f == "len" and len(vals) == 1 and tys[0] and tys[0][0] == "L":
             return f"({vals[0][0]}.length : Int)", "Int"
@@ -382,6 +392,10 @@ class Translator:
             return f"(Py.range {lo} {hi})", ("L", "Int")
         if f == "zip" and len(vals) == 2 and all(t and t[0] == "L" for t in tys):
             return f"(List.zip {vals[0][0]} {vals[1][0]})", ("L", ("T", tys[0][1], tys[1][1]))
+        if f and f.endswith(".get") and len(vals) == 2 and isinstance(args[1], ast.Constant) and args[1].value is None:
+            t, ty = self.expr(e.func.value, env)
+            if ty and ty[0] == "D":
+                return f"(List.lookup {vals[0][0]} {t})", ("O", ty[2])
         if f and f.endswith(".keys") and not vals:          # keys of a dict used as an ordered set
             t, ty = self.expr(e.func.value, env)
             if ty and ty[0] == "L":
@@ -443,10 +457,19 @@ class Translator:
                 return True
         return False
 
-    def wrap_ret(self, text):
-        vals = ([text] if text is not None else []) + [self.v(o) for o in self.outs]
-        t = "()" if not vals else vals[0] if len(vals) == 1 else "(" + ", ".join(vals) + ")"
-        return f".ok {t}" if self.can_raise else t
+    def wrap_ret(self, text, error=None):
+        """the function's result: the value (`.ok v` / `.error e` if it can raise), then the effects / state"""
+        if error is not None:
+            val = f".error Py.Err.{error}"
+        else:
+            val = (text if text is not None else "()")
+            if self.can_raise:
+                val = f".ok {val}"
+        if text is None and error is None and self.outs and not self.can_raise and not self.returns_value:
+            vals = [self.v(o) for o in self.outs]
+        else:
+            vals = [val] + [self.v(o) for o in self.outs]
+        return vals[0] if len(vals) == 1 else "(" + ", ".join(vals) + ")"
 
     def note_ret(self, ty):
         if self.ret_ty is None:
@@ -474,7 +497,7 @@ class Translator:
             name = _dotted(exc) if exc is not None else None
             if name not in ERRORS:
                 self.bad(s, f"raise of `{name}`")
-            return [f".error Py.Err.{ERRORS[name]}"]
+            return [self.wrap_ret(None, error=ERRORS[name])]
         if isinstance(s, ast.Continue):
             if not self.loops:
                 self.bad(s, "continue outside a loop")
@@ -509,7 +532,7 @@ class Translator:
 
     @staticmethod
     def closed(ty):
-        if ty is None:
+        if ty is None or ty == ():
             return False
         return True if isinstance(ty, str) else all(Translator.closed(x) for x in ty[1:])
 
@@ -533,10 +556,14 @@ class Translator:
             self.bad(s, "chained assignment")
         tg = s.targets[0]
         env = dict(env)
-        if isinstance(tg, ast.Subscript) and isinstance(tg.value, ast.Name) and tg.value.id in env:
-            x, tx = tg.value.id, env[tg.value.id]
+        if isinstance(tg, ast.Subscript) and _dotted(tg.value) in env:
+            x, tx = _dotted(tg.value), env[_dotted(tg.value)]
+            if tx and tx[0] == "D":
+                (key, _), (val, _) = self.expr(tg.slice, env), self.expr(s.value, env)
+                return self.let(self.v(x), f"({key}, {val}) :: {self.v(x)}") + k(env)
             if tx and tx[0] == "L" and isinstance(s.value, ast.Constant) and s.value.value is True and env.get("#set:" + x):
-                key, _ = self.expr(tg.slice, env)
+                key, kty = self.expr(tg.slice, env)
+                self.learn(env, x, kty)
                 return self.let(self.v(x), f"Py.setInsert {self.v(x)} {key}") + k(env)
             if tx and tx[0] == "L":
                 (i, ti), (val, _) = self.expr(tg.slice, env), self.expr(s.value, env)
@@ -546,12 +573,29 @@ class Translator:
         if isinstance(s.value, ast.Dict) and not s.value.keys and isinstance(tg, ast.Name):
             env[tg.id] = ("L", None)          # dict used as an insertion-ordered set of keys; element type from first insert
             env["#set:" + tg.id] = True
-            return self.let(self.v(tg.id), "[]") + k(env)
+            return [f"let {self.v(tg.id)}{self.pending(env, tg.id)} := []"] + k(env)
         t, ty = self.expr(s.value, env)
         if ann is not None and not self.closed(ty):
             ty = ann                       # e.g. `xs: list[int] = []`
         pat = self.pattern(tg, ty, env)
+        if isinstance(tg, ast.Name) and ty and ty[0] == "L" and not self.closed(ty) and t == "[]":
+            return [f"let {pat}{self.pending(env, tg.id)} := []"] + k(env)
         return self.let(pat, t, ty, annotate=isinstance(tg, ast.Name)) + k(env)
+
+    def pending(self, env, x):
+        """placeholder for the type annotation of an empty list / dict whose element type is learnt at its first insert"""
+        tok = f"⟪{len(self.tokens)}⟫"
+        self.tokens[tok] = None
+        env["#tok:" + x] = tok
+        return tok
+
+    def learn(self, env, x, elty):
+        if self.closed(elty):
+            if not self.closed(env.get(x)):
+                env[x] = ("L", elty)
+            tok = env.get("#tok:" + x)
+            if tok and self.tokens.get(tok) is None:
+                self.tokens[tok] = " : " + lean_ty(("L", elty))
 
     def s_CallStmt(self, c, env, k):
         f = _dotted(c.func)
@@ -565,8 +609,8 @@ class Translator:
             x, tx, meth = c.func.value.id, env[c.func.value.id], c.func.attr
             if tx and tx[0] == "L" and len(c.args) == 1 and not c.keywords and meth in ("append", "remove"):
                 t, ty = self.expr(c.args[0], env)
-                if tx[1] is None:
-                    env[x] = ("L", ty)
+                if meth == "append":
+                    self.learn(env, x, ty)
                 return self.let(self.v(x), f"{self.v(x)} ++ [{t}]" if meth == "append" else f"{self.v(x)}.erase {t}") + k(env)
             if env.get("#set:" + x) and meth == "pop" and len(c.args) == 2 and isinstance(c.args[1], ast.Constant) \
                     and c.args[1].value is None:
@@ -590,6 +634,18 @@ class Translator:
         return res
 
     def s_If(self, s, env, k):
+        t = s.test
+        if isinstance(t, ast.Compare) and len(t.ops) == 1 and isinstance(t.ops[0], (ast.Is, ast.IsNot)) and \
+                isinstance(t.left, ast.Name) and isinstance(t.comparators[0], ast.Constant) and t.comparators[0].value is None:
+            x, tx = t.left.id, env.get(t.left.id)
+            if not tx or tx[0] != "O":
+                self.bad(t, f"`is None` test on a value of type {tx}")
+            some_b, none_b = (s.body, s.orelse) if isinstance(t.ops[0], ast.IsNot) else (s.orelse, s.body)
+            if not (self.escapes(some_b) or self.escapes(none_b)):
+                self.bad(s, "`is None` test whose branches do not return (only `if x is [not] None: return …` is in the subset)")
+            a = self.block(some_b, dict(env, **{x: tx[1]}), k)
+            b = self.block(none_b, {kk: vv for kk, vv in env.items() if kk != x}, k)
+            return [f"match {self.v(x)} with", f"| some {self.v(x)} => ("] + _ind(a) + [")", "| none => ("] + _ind(b) + [")"]
         c = self.cond(s.test, env)
         if self.escapes(s.body) or self.escapes(s.orelse):
             a = self.block(s.body, dict(env), k)
@@ -611,8 +667,9 @@ class Translator:
             tys = [e.get(x) for e in envs if e.get(x) is not None and self.closed(e.get(x))]
             env[x] = tys[0] if tys else next((e.get(x) for e in envs if e.get(x) is not None), None)
             for e in envs:
-                if e.get("#set:" + x):
-                    env["#set:" + x] = True
+                for tag in ("#set:", "#tok:"):
+                    if e.get(tag + x):
+                        env[tag + x] = e[tag + x]
         return [f"let {tup} := if {c} then ("] + _ind(a) + [") else ("] + _ind(b) + [")"] + k(env)
 
     def s_For(self, s, env, k):
@@ -668,6 +725,7 @@ class Translator:
             env[n] = fn.params[n]
             binders.append(f"({self.v(n)} : {lean_ty(fn.params[n])})")
         self.can_raise = any(isinstance(n, ast.Raise) for n in ast.walk(node))
+        self.returns_value = any(isinstance(n, ast.Return) and n.value is not None for n in ast.walk(node))
         for n in ast.walk(node):
             if isinstance(n, (ast.FunctionDef, ast.AsyncFunctionDef, ast.Lambda, ast.ClassDef)) and n is not node:
                 self.bad(n, "nested def / lambda / class")
@@ -682,13 +740,21 @@ class Translator:
             self.outs = [OUT]
             env[OUT] = ("L", ety)
             lines += [f"let {OUT} : {lean_ty(('L', ety))} := []"]
+        for attr, ty in fn.state.items():
+            self.outs.append(attr)
+            env[attr] = ty
+            lines += [f"let {self.v(attr)} : {lean_ty(ty)} := {attr}"]
         lines += self.block(node.body, env, lambda e: [self.wrap_ret(None)])
-        parts = ([self.ret_ty] if self.ret_ty is not None else []) + [env[o] for o in self.outs]
+        for tok, val in self.tokens.items():
+            lines = [l.replace(tok, val or "") for l in lines]
+        val = self.ret_ty if self.returns_value else "Unit"
         rty = None
-        if all(self.closed(p) for p in parts):
-            rty = "Unit" if not parts else parts[0] if len(parts) == 1 else ("T", *parts)
+        if self.closed(val):
             if self.can_raise:
-                rty = ("E", rty)
+                val = ("E", val)
+            outs = [env[o] for o in self.outs]
+            rty = val if not outs else ("T", *outs) if (val == "Unit" and len(outs) > 1) else outs[0] if val == "Unit" \
+                else ("T", val, *outs)
         sig = f"def {fn.name} " + " ".join(binders) + (f" : {lean_ty(rty)}" if rty else "") + " :="
         return sig, _ind(lines), rty
 
